@@ -233,12 +233,19 @@ def trusted_scan(text):
     for mm in re.finditer(r'exec_allows_no_decreases_clause\]\s*(?:#\[[^\]]*\]\s*)*(?:pub\s+)?fn\s+(\w+)', m):
         found.append('exec_allows_no_decreases_clause fn %s' % mm.group(1))
     for mm in re.finditer(r'\b(assume|admit)\s*\(', m):
-        found.append('%s(...) at line %d' % (mm.group(1), m.count('\n', 0, mm.start()) + 1))
+        line_no = m.count('\n', 0, mm.start()) + 1
+        # an assume inside a woven `cases` block is one arm of a case split whose exhaustiveness is asserted in the same block
+        before = text[:mm.start()]
+        blk = re.findall(r'//@W< fn=(\S+) sec=(\S+)', before)
+        if blk and blk[-1][1].startswith('cases') and before.rfind('//@W<') > before.rfind('//@W>'):
+            found.append('case-split assume in %s' % blk[-1][0])
+        else:
+            found.append('%s(...) at line %d' % (mm.group(1), line_no))
     for mm in re.finditer(r'#\[verifier::external\]', m):
         found.append('verifier::external at line %d' % (m.count('\n', 0, mm.start()) + 1))
     n_markers = len(re.findall(r'external_body|assume_specification|external_type_specification|\buninterp\b|exec_allows_no_decreases_clause', m))
     n_markers -= len([l for l in m.split('\n') if 'external_type_specification' in l and 'external_body' in l])
-    if n_markers != len([f for f in found if not f.startswith(('assume(', 'admit(', 'verifier::external '))]):
+    if n_markers != len([f for f in found if not f.startswith(('assume(', 'admit(', 'verifier::external ', 'case-split assume'))]):
         found.append('UNPARSED trusted marker (scan found %d markers)' % n_markers)
     return sorted(set(found))
 
@@ -298,6 +305,8 @@ def run_unit(unit, tier='quick', tag='main', solver=None):
 
         extra = ['-V', 'cvc5'] if solver == 'cvc5' else []
         cmd = verus_cmd(path, tier, extra)
+        if getattr(u, 'rlimit', None):
+            cmd[cmd.index('--rlimit') + 1] = u.rlimit
         rc, out, err, wall, was_cached = cached_verus(cmd, path, os.path.join(BUILD, unit))
         diags, other = parse_diagnostics(err)
         verif_errs, tool_errs = classify(diags)
@@ -348,7 +357,48 @@ def run_unit(unit, tier='quick', tag='main', solver=None):
         m = d.get('message', '')
         if 'Resource limit' in m or 'rlimit' in m or 'timed out' in m.lower():
             raise Undecided('unit %s: solver resource limit: %s' % (unit, m))
-    res = dict(unit=unit, path=path, info=info, obligations=obligations, errors=errors, fres=fres, trusted=trusted,
+    # case-split units (@cases): the same functions are verified once per case, each variant assuming one case after
+    # asserting that the cases are exhaustive; an obligation is discharged only if it is discharged in every variant
+    n_var = getattr(u, 'n_variants', 1)
+    if n_var > 1:
+        from concurrent.futures import ThreadPoolExecutor
+
+        def one(k):
+            uk, tk, ik = W.build_unit(spec, REPO, CONTRACTS, shims.SHIMS, force, k)
+            fk = '%s_%s_v%d.rs' % (unit, tag, k)
+            pk = os.path.join(BUILD, unit, fk)
+            open(pk, 'w').write(tk)
+            ck = verus_cmd(pk, tier, extra)
+            if getattr(u, 'rlimit', None):
+                ck[ck.index('--rlimit') + 1] = u.rlimit
+            rck, outk, errk, wallk, _ = cached_verus(ck, pk, os.path.join(BUILD, unit))
+            return k, tk, fk, outk, errk, wallk
+        with ThreadPoolExecutor(max_workers=min(8, n_var - 1)) as ex:
+            results = list(ex.map(one, range(1, n_var)))
+        for k, tk, fk, outk, errk, wallk in results:
+            dk, _ = parse_diagnostics(errk)
+            vk, toolk = classify(dk)
+            try:
+                ojk = json.loads(outk[outk.index('{'):]) if '{' in outk else {}
+            except ValueError:
+                ojk = {}
+            if toolk or not ojk.get('verification-results'):
+                raise Undecided('unit %s variant %d: Verus did not get to verification: %s' % (unit, k, [d.get('message') for d in toolk][:3]))
+            lk, fnk, blkk, labk, _ = analyse_woven(tk)
+            for d in vk:
+                if 'Resource limit' in d.get('message', '') or 'rlimit' in d.get('message', ''):
+                    raise Undecided('unit %s variant %d: solver resource limit: %s' % (unit, k, d['message']))
+                oid, kind, where, f = map_error(d, lk, fnk, blkk, labk, fk)
+                if not any(e['obligation'] == oid and e['where'] == where for e in errors):
+                    errors.append(dict(obligation=oid, kind=kind, where=where + ' [case variant %d]' % k, fn=f, rendered=d.get('rendered', ''), message=d['message'], rlimit=False))
+            for mt in ojk.get('times-ms', {}).get('smt', {}).get('smt-run-module-times', []):
+                for fb in mt.get('function-breakdown', []):
+                    for key, fi in info.items():
+                        if fb['function'].endswith('::%s::%s' % (fi.get('implname'), fi.get('src_name'))) and fb.get('mode:') == 'exec' and key in fres:
+                            fres[key]['success'] = bool(fres[key]['success']) and bool(fb.get('success'))
+                            fres[key]['time_ms'] = (fres[key]['time_ms'] or 0) + (fb.get('time') or 0)
+            wall = max(wall, wallk)
+    res = dict(unit=unit, path=path, info=info, obligations=obligations, errors=errors, fres=fres, trusted=trusted, variants=n_var,
                allow=allow, verus=oj.get('verification-results'), times=oj.get('times-ms', {}), cmd=' '.join(cmd), wall=wall,
                weave_wall=time.time() - t0 - wall, cached=was_cached, degraded=dict(force), version=oj.get('verus', {}), text=text, spec=u)
     return res
@@ -363,11 +413,13 @@ def run_canary(res, tier):
     fname = '%s_canary.rs' % unit
     path = os.path.join(BUILD, unit, fname)
     open(path, 'w').write(ctext)
-    rc, out, err, wall, was_cached = cached_verus(verus_cmd(path, tier), path, os.path.join(BUILD, unit))
+    ccmd = verus_cmd(path, tier)
+    # only the assertion at each function entry matters here; loops are separate queries that would be re-proved
+    # at full cost, so give the canary pass a tiny resource limit (loop queries then stop early; their errors are ignored)
+    ccmd[ccmd.index('--rlimit') + 1] = '3'
+    rc, out, err, wall, was_cached = cached_verus(ccmd, path, os.path.join(BUILD, unit))
     diags, other = parse_diagnostics(err)
     verif_errs, tool_errs = classify(diags)
-    if tool_errs:
-        raise Undecided('canary pass of unit %s did not compile' % unit)
     clines = ctext.split('\n')
     hit = set()
     for d in verif_errs:
@@ -379,6 +431,8 @@ def run_canary(res, tier):
                 if m:
                     hit.add(m.group(1))
     missing = [n for n in names if n not in hit]
+    if missing and tool_errs and not verif_errs:
+        raise Undecided('canary pass of unit %s did not compile: %s' % (unit, [d.get('message') for d in tool_errs][:3]))
     return dict(checked=len(names), failed_as_expected=len(names) - len(missing), vacuous=missing, wall=wall)
 
 
